@@ -244,6 +244,21 @@ theorem C06_indices_in_document_order (env : Env) (input : Str) (c : Col α)
   have := C06_indices_in_document_order_of_events env input _ c (pullEvents_evOK env.cs env.ext input) h
   exact ⟨this.ingr, this.cw, this.tm, this.iq⟩
 
+/-- **Consecutive indices when nothing is skipped.**  If the recipe has as many ingredient items as
+    ingredients (no ingredient was added by a `[mode]: components` block or another dropped block),
+    then the k-th ingredient item has index k: the indices read in document order are exactly
+    `0, 1, …, n-1`.  Likewise for cookware and timers. -/
+theorem C06_indices_consecutive_when_none_skipped (env : Env) (input : Str) (c : Col α)
+    (h : (parseRecipe (α := α) env input).output = some c) :
+    (((recipeItems c).filterMap Item.ingrIdx).length = c.ingredients.size →
+      (recipeItems c).filterMap Item.ingrIdx = List.range c.ingredients.size) ∧
+    (((recipeItems c).filterMap Item.cwIdx).length = c.cookware.size →
+      (recipeItems c).filterMap Item.cwIdx = List.range c.cookware.size) ∧
+    (((recipeItems c).filterMap Item.timerIdx).length = c.timers.size →
+      (recipeItems c).filterMap Item.timerIdx = List.range c.timers.size) := by
+  have := C06_indices_in_document_order_of_events env input _ c (pullEvents_evOK env.cs env.ext input) h
+  exact ⟨this.ingr.eq_range, this.cw.eq_range, this.tm.eq_range⟩
+
 /-! non-vacuity: `recipeItems` of a two-section recipe; a repeated or decreasing index is rejected -/
 example : recipeItems (α := Rat) { sections := [⟨none, [.step ⟨[.ingredient 0, .text ['a'], .cookware 0], 1⟩, .text ['x']]⟩,
       ⟨some ['s'], [.step ⟨[.ingredient 2], 1⟩]⟩] } =
